@@ -17,7 +17,7 @@ func init() {
 	Register(&Prop{
 		ID: "C30",
 		Rule: "parse: decimal-ish strings dense around 10^18, 2^63-1, 2^63, 2^64 and with foreign bytes (non-trivial = at least 17 digits or a non-digit inside); " +
-			"append: ints incl. boundaries (non-trivial = n >= 10); hex: hex strings of 0..20 digits with terminators/EOF (non-trivial = >=2 hex digits); distinct = distinct input",
+			"append: ints incl. boundaries (non-trivial = n >= 10); hex: hex strings of 0..20 digits with terminators/EOF, delivered at once or in reads of 1..15 bytes (non-trivial = >=2 hex digits); distinct = distinct input",
 		Assumptions: []string{"only the 64-bit build is executed; the width-32 theorems are tied to /repo through the regenerated constants only",
 			"strconv.AppendUint is modelled by Model.appendUint (tied by differential runs)"},
 		Build: func(kind string, a [][]byte) *Case {
@@ -77,7 +77,12 @@ func init() {
 			case "hexread":
 				data := a[0]
 				bs := 16 + int(a[1][0])
-				n, err, unread := fasthttp.VerifReadHexInt(data, bs)
+				// a[2] (optional): the bytes arrive in reads of at most that many bytes (0 = all at once): the verdict must not depend on it
+				step := 0
+				if len(a) > 2 && len(a[2]) > 0 {
+					step = int(a[2][0])
+				}
+				n, err, unread := fasthttp.VerifReadHexIntSplit(data, bs, step)
 				impl := fmt.Sprintf("err %s", fasthttp.VerifIntErrClass(err))
 				if err == nil {
 					impl = fmt.Sprintf("ok %d %d", n, unread)
@@ -185,7 +190,7 @@ func init() {
 					d = r.Bytes(r.Intn(20), hexd)
 				}
 				d = append(d, terms[r.Intn(len(terms))]...)
-				emit("hexread", d, []byte{byte(r.Intn(3))})
+				emit("hexread", d, []byte{byte(r.Intn(3))}, []byte{byte([]int{0, 0, 1, 2, 3, 5, 7, 15}[r.Intn(8)])})
 			}
 		},
 	})
